@@ -64,9 +64,15 @@ def seeded():
         rows.append(m)
     if not rows:
         return '*No seeded change has been confirmed yet.*'
-    out = ['Each change was written by a fresh sub-agent that saw only the property text and a scratch worktree of /repo, '
-           'confirmed by the integrator in a scratch worktree (existing suite still passes; the demo fails with the change and passes '
-           'without it), then run against the checks with `git -C /repo apply` … `git -C /repo checkout -- .`.\n',
+    out = ['Three rounds, one change per property per round (60 in all). Each change was written by a fresh sub-agent that saw only the '
+           'property text and its own scratch worktree of /repo (rounds 2 and 3 were also told which changes had already been used, so that '
+           'they picked a different function and clause), confirmed by the integrator in that worktree (`tools_seed.sh`: the existing suite still '
+           'passes; the demo fails with the change and passes without it; the C extension is rebuilt around the demo when the C source changed), '
+           'then run against the checks. While builders and sweepers were reading /repo, the seeded tree was a scratch copy of '
+           '`skoolkit/` + `c/` with the patch applied, selected with `SKOOLKIT_REPO` (the checks take their import root and the C source from it; '
+           'evidence of such runs goes to a scratch directory); a final pass re-ran all 60 changes against the final checks that way, and a sample '
+           'was run with `git -C /repo apply <patch>` … `git -C /repo checkout -- .` on /repo itself. Where a change was missed, or reported '
+           'without a concrete input, the check was strengthened and the row says so.\n',
            '| seeded id | breaks | needs, in order to manifest | caught by | how |', '|---|---|---|---|---|']
     for m in rows:
         out.append(f"| {m['id']} | {m['property']} | {m['needs'].replace('|','/')} | {m.get('caught_by','?')} | {m.get('how','').replace('|','/')} |")
@@ -95,6 +101,13 @@ def main():
     lines = open(os.path.join(HERE, 'KNOWN_FINDINGS.txt')).read().split('\n')
     nf = sum(1 for l in lines if l.startswith('fixed:'))
     nk = sum(1 for l in lines if l.startswith('known:'))
+    nthm = 0
+    for f in glob.glob(os.path.join(HERE, 'evidence', 'C*.json')):
+        try:
+            nthm += json.load(open(f))['coverage']['obligations']
+        except Exception:
+            pass
+    t = t.replace('@@NTHM@@', str(nthm))
     t = t.replace('@@NTOTAL@@', str(nf + nk)).replace('@@NFIXED@@', str(nf)).replace('@@NKNOWN@@', str(nk))
     open(os.path.join(HERE, 'DESIGN.md'), 'w').write(t)
 
